@@ -250,7 +250,7 @@ func genC18Cfg(seed uint64, tier string) *world.Scenario {
 		p = pts[r.Intn(len(pts))]
 	}
 	sc.Params["uid"], sc.Params["gid"], sc.Params["mode"] = float64(p.uid), float64(p.gid), float64(p.mode)
-	sc.Variant = kernel.Pick(r, "direct", "symlink", "dotdot", "dotdot")
+	sc.Variant = kernel.Pick(r, "direct", "symlink", "dotdot", "dotdot", "relative", "cwd")
 	return sc
 }
 
